@@ -82,6 +82,14 @@ func (p *Prog) Expand(f *Func, opt ExpandOpt) *Func {
 		p.detemp(x.info, body)
 		if os.Getenv("SIALINT_NOSROA") == "" && p.sroa(x.info, body) {
 			p.detemp(x.info, body)
+			// a struct of function values handed to a helper is now a set of local closures: expand their calls
+			n := len(x.inlinedCalls) + len(x.inlined)
+			x.findClosures(body)
+			body.List = x.blockT(body.List, 0, true)
+			if len(x.inlinedCalls)+len(x.inlined) != n {
+				x.dropDeadClosures(body)
+				p.detemp(x.info, body)
+			}
 		}
 	}
 	v := &Func{P: p, Obj: f.Obj, Decl: f.Decl, Lit: f.Lit, Parent: f.Parent, Pkg: f.Pkg, Body: body, Type: f.Type, name: f.name, View: true, Base: f, Inlined: x.inlined, InlinedCalls: x.inlinedCalls}
@@ -250,10 +258,20 @@ func (x *expander) stmt(s ast.Stmt, next ast.Stmt, depth int) []ast.Stmt {
 	x.tail = false
 	switch t := s.(type) {
 	case *ast.DeferStmt:
+		pre = x.stabilise(t.Call, depth)
 		x.litForm(&t.Call, depth)
+		if len(pre) > 0 {
+			x.descend(s, depth)
+			return append(pre, s)
+		}
 	case *ast.GoStmt:
 		if x.opt.GoLits {
+			pre = x.stabilise(t.Call, depth)
 			x.litForm(&t.Call, depth)
+			if len(pre) > 0 {
+				x.descend(s, depth)
+				return append(pre, s)
+			}
 		}
 	case *ast.ExprStmt:
 		if call, ok := ast.Unparen(t.X).(*ast.CallExpr); ok {
@@ -325,6 +343,44 @@ func (x *expander) stmt(s ast.Stmt, next ast.Stmt, depth int) []ast.Stmt {
 					return append(append(pre, repl...), t)
 				}
 			}
+		}
+	case *ast.ForStmt:
+		// `for cond() { … }` with an expandable call in the condition: the test moves into the body
+		// (`for { if !cond() { break }; … }`), where it is expanded like any other condition
+		if t.Cond != nil && t.Post == nil {
+			has := false
+			ast.Inspect(t.Cond, func(n ast.Node) bool {
+				if call, ok := n.(*ast.CallExpr); ok {
+					if _, exp := x.target(call, depth); exp {
+						has = true
+					}
+				}
+				if _, isLit := n.(*ast.FuncLit); isLit {
+					return false
+				}
+				return !has
+			})
+			if has {
+				at := t.Cond.Pos()
+				boolT := types.TypeAndValue{Type: types.Typ[types.Bool]}
+				par := &ast.ParenExpr{Lparen: at, X: t.Cond, Rparen: t.Cond.End()}
+				not := &ast.UnaryExpr{OpPos: at, Op: token.NOT, X: par}
+				x.info.Types[par], x.info.Types[not] = boolT, boolT
+				guard := &ast.IfStmt{If: at, Cond: not, Body: &ast.BlockStmt{Lbrace: at, List: []ast.Stmt{&ast.BranchStmt{TokPos: at, Tok: token.BREAK}}, Rbrace: t.Cond.End()}}
+				t.Cond = nil
+				t.Body.List = append([]ast.Stmt{guard}, t.Body.List...)
+			}
+		}
+	case *ast.RangeStmt:
+		if un := x.unrollTable(t); un != nil {
+			return x.blockC(un, depth, false, next)
+		}
+		if un := x.rangeOverFunc(t, depth); un != nil {
+			// the iterator first (its expansion yields the literal it returns), then the loop body as a closure,
+			// then the call of the one on the other
+			first := x.blockC(un[:2], depth, false, nil)
+			x.findClosures(&ast.BlockStmt{List: first})
+			return append(first, x.blockC(un[2:], depth, false, next)...)
 		}
 	case *ast.SwitchStmt:
 		// `switch helper(args) {…}`: the tag is computed into a temporary first, so that the helper is expanded
@@ -617,7 +673,10 @@ func calleeOf(info *types.Info, call *ast.CallExpr) (*types.Func, bool) {
 }
 
 func (x *expander) eligibleBody(fn *Func, call *ast.CallExpr, allowDefer bool) bool {
-	sig, _ := x.info.TypeOf(call.Fun).(*types.Signature)
+	var sig *types.Signature
+	if t := x.info.TypeOf(call.Fun); t != nil {
+		sig, _ = t.Underlying().(*types.Signature)
+	}
 	if sig == nil || sig.Variadic() {
 		return false
 	}
@@ -794,9 +853,9 @@ func (x *expander) shareResults(cl *cloner, as *ast.AssignStmt, call *ast.CallEx
 		if operand {
 			continue
 		}
-		esc := x.escapesIn(x.top.Body, lo) || x.escapesIn(body, v)
+		esc := x.escapesIn(x.top.Body, lo, call) || x.escapesIn(body, v, nil)
 		for _, b := range x.open { // callee copies being rewritten, not yet attached to the top body
-			esc = esc || x.escapesIn(b, lo)
+			esc = esc || x.escapesIn(b, lo, call)
 		}
 		if esc {
 			continue
@@ -806,8 +865,9 @@ func (x *expander) shareResults(cl *cloner, as *ast.AssignStmt, call *ast.CallEx
 	}
 }
 
-// escapesIn: within root, obj has its address taken or is mentioned inside a function literal.
-func (x *expander) escapesIn(root ast.Node, obj types.Object) bool {
+// escapesIn: within root, obj has its address taken or is mentioned inside a
+// function literal other than the ones the call site itself lies in.
+func (x *expander) escapesIn(root ast.Node, obj types.Object, site ast.Node) bool {
 	found := false
 	var walk func(n ast.Node, inLit bool)
 	walk = func(n ast.Node, inLit bool) {
@@ -817,6 +877,9 @@ func (x *expander) escapesIn(root ast.Node, obj types.Object) bool {
 			}
 			switch t := m.(type) {
 			case *ast.FuncLit:
+				if site != nil && t.Pos() <= site.Pos() && site.Pos() < t.End() {
+					return true // the literal the call is written in: the same activation
+				}
 				if !inLit {
 					walk(t.Body, true)
 					return false
@@ -846,7 +909,7 @@ func (x *expander) inline(call *ast.CallExpr, ctx *callCtx, depth int) ([]ast.St
 		return nil, false
 	}
 	fn := c.fn
-	sig := x.info.TypeOf(call.Fun).(*types.Signature)
+	sig := x.info.TypeOf(call.Fun).Underlying().(*types.Signature)
 	nres := sig.Results().Len()
 	switch ctx.kind {
 	case ctxAssign:
@@ -1532,7 +1595,34 @@ func (x *expander) writtenObjs(body ast.Node) map[types.Object]bool {
 			mark(t.X)
 		case *ast.UnaryExpr:
 			if t.Op == token.AND {
-				if o, _ := root(t.X); o != nil {
+				// &x.f / &a[i] (array) expose the variable itself; &s[i] (slice), &p.f (through a pointer) and &m[k]
+				// address memory the variable merely refers to
+				indirect := false
+				for e := ast.Unparen(t.X); ; {
+					switch u := e.(type) {
+					case *ast.IndexExpr:
+						switch x.info.TypeOf(u.X).Underlying().(type) {
+						case *types.Slice, *types.Pointer, *types.Map:
+							indirect = true
+						}
+						e = ast.Unparen(u.X)
+						continue
+					case *ast.SelectorExpr:
+						if s := x.info.Selections[u]; s != nil && s.Indirect() {
+							indirect = true
+						} else if _, isPtr := x.info.TypeOf(u.X).Underlying().(*types.Pointer); isPtr {
+							indirect = true
+						}
+						e = ast.Unparen(u.X)
+						continue
+					case *ast.StarExpr:
+						indirect = true
+						e = ast.Unparen(u.X)
+						continue
+					}
+					break
+				}
+				if o, _ := root(t.X); o != nil && !indirect {
 					out[o] = true
 				}
 			}
@@ -1714,6 +1804,285 @@ func (vs *ViewSet) Of(f *Func) *Func {
 // only once in the function (so reading it when the closure runs gives the
 // value it had when the statement executed). The literal's body is then
 // expanded like any other.
+// unrollTable rewrites `for k, v := range []T{e0, …, en} { body }` over a short
+// literal table into one copy of the body per row (`v := ei; body`), with
+// `continue` jumping to the next copy and `break` past the last: a table-driven
+// loop reads like the statements it abbreviates (rows holding function literals
+// are then expanded like any local closure). Returns nil when the statement is
+// not of that form, or uses labelled branches.
+func (x *expander) unrollTable(rs *ast.RangeStmt) []ast.Stmt {
+	lit, ok := ast.Unparen(rs.X).(*ast.CompositeLit)
+	if !ok || len(lit.Elts) == 0 || len(lit.Elts) > 8 || rs.Tok != token.DEFINE {
+		return nil
+	}
+	switch x.info.TypeOf(lit).Underlying().(type) {
+	case *types.Slice, *types.Array:
+	default:
+		return nil
+	}
+	for _, e := range lit.Elts {
+		if _, keyed := e.(*ast.KeyValueExpr); keyed {
+			return nil
+		}
+	}
+	labelled := false
+	ast.Inspect(rs.Body, func(n ast.Node) bool {
+		switch t := n.(type) {
+		case *ast.BranchStmt:
+			if t.Label != nil {
+				labelled = true
+			}
+		case *ast.LabeledStmt:
+			labelled = true
+		case *ast.FuncLit:
+			return false
+		}
+		return true
+	})
+	if labelled {
+		return nil
+	}
+	end := x.label("tblend")
+	var out []ast.Stmt
+	for i, elt := range lit.Elts {
+		// a copy of the loop with its own variables
+		declared := map[types.Object]bool{}
+		ast.Inspect(rs, func(n ast.Node) bool {
+			if id, ok := n.(*ast.Ident); ok {
+				if o := x.info.Defs[id]; o != nil {
+					declared[o] = true
+				}
+			}
+			if o, ok := x.info.Implicits[n]; ok && n != nil {
+				declared[o] = true
+			}
+			return true
+		})
+		cl := &cloner{p: x.p, info: x.info, off: x.p.shiftFile(rs.Pos()), objs: map[types.Object]types.Object{},
+			local: func(o types.Object) bool { return declared[o] }}
+		cp := cl.node(rs).(*ast.RangeStmt)
+		next := x.label("tblnext")
+		var row []ast.Stmt
+		at := cp.Pos()
+		if id, ok := cp.Key.(*ast.Ident); ok && id.Name != "_" {
+			idx := &ast.BasicLit{ValuePos: at, Kind: token.INT, Value: fmt.Sprint(i)}
+			x.info.Types[idx] = types.TypeAndValue{Type: types.Typ[types.Int], Value: constant.MakeInt64(int64(i))}
+			row = append(row, &ast.AssignStmt{Lhs: []ast.Expr{id}, TokPos: at, Tok: token.DEFINE, Rhs: []ast.Expr{idx}})
+		}
+		if id, ok := cp.Value.(*ast.Ident); ok && id.Name != "_" {
+			row = append(row, &ast.AssignStmt{Lhs: []ast.Expr{id}, TokPos: at, Tok: token.DEFINE, Rhs: []ast.Expr{elt}})
+		} else if containsCall(elt) {
+			row = append(row, &ast.AssignStmt{Lhs: []ast.Expr{&ast.Ident{NamePos: at, Name: "_"}}, TokPos: at, Tok: token.ASSIGN, Rhs: []ast.Expr{elt}})
+		}
+		// break / continue of this loop
+		var fix func(n ast.Node, brk, cont bool)
+		fix = func(n ast.Node, brk, cont bool) {
+			ast.Inspect(n, func(m ast.Node) bool {
+				if m == nil || m == n {
+					return true
+				}
+				switch t := m.(type) {
+				case *ast.FuncLit:
+					return false
+				case *ast.ForStmt, *ast.RangeStmt:
+					fix(t, false, false)
+					return false
+				case *ast.SwitchStmt, *ast.TypeSwitchStmt, *ast.SelectStmt:
+					fix(t, false, cont)
+					return false
+				case *ast.BranchStmt:
+					switch {
+					case t.Tok == token.BREAK && brk:
+						t.Tok, t.Label = token.GOTO, &ast.Ident{NamePos: t.Pos(), Name: end}
+					case t.Tok == token.CONTINUE && cont:
+						t.Tok, t.Label = token.GOTO, &ast.Ident{NamePos: t.Pos(), Name: next}
+					}
+				}
+				return true
+			})
+		}
+		fix(cp.Body, true, true)
+		row = append(row, cp.Body.List...)
+		out = append(out, &ast.BlockStmt{Lbrace: at, List: row, Rbrace: cp.End()}, labeled(next, cp.End()))
+	}
+	out = append(out, labeled(end, rs.End()))
+	return out
+}
+
+// rangeOverFunc rewrites `for k, v := range seq(args) { body }`, where seq is
+// an expandable function returning an iterator (func(yield func(K, V) bool)),
+// into what the language defines it to mean:
+//
+//	it := seq(args); yield := func(k K, v V) bool { body; return true }; it(yield)
+//
+// with `continue` as `return true` and `break` as `return false`. The iterator
+// and the loop body are then expanded like any helper and local closure, so the
+// loop reads as the iterator's own loop with the body at its yield. Bodies that
+// return from the enclosing function, defer, or use labels are left alone.
+func (x *expander) rangeOverFunc(rs *ast.RangeStmt, depth int) []ast.Stmt {
+	call, ok := ast.Unparen(rs.X).(*ast.CallExpr)
+	if !ok || (rs.Tok != token.DEFINE && rs.Key != nil) {
+		return nil
+	}
+	if _, exp := x.target(call, depth); !exp {
+		return nil
+	}
+	seqSig, ok := x.info.TypeOf(call).Underlying().(*types.Signature)
+	if !ok || seqSig.Params().Len() != 1 || seqSig.Results().Len() != 0 {
+		return nil
+	}
+	yieldSig, ok := seqSig.Params().At(0).Type().Underlying().(*types.Signature)
+	if !ok || yieldSig.Results().Len() != 1 || yieldSig.Params().Len() > 2 {
+		return nil
+	}
+	bad := false
+	ast.Inspect(rs.Body, func(n ast.Node) bool {
+		switch t := n.(type) {
+		case *ast.FuncLit:
+			return false
+		case *ast.ReturnStmt, *ast.DeferStmt, *ast.LabeledStmt:
+			bad = true
+		case *ast.BranchStmt:
+			if t.Label != nil || t.Tok == token.GOTO {
+				bad = true
+			}
+		}
+		return !bad
+	})
+	if bad {
+		return nil
+	}
+	at := rs.Pos()
+	boolLit := func(v bool, pos token.Pos) ast.Expr {
+		name := "false"
+		if v {
+			name = "true"
+		}
+		id := &ast.Ident{NamePos: pos, Name: name}
+		x.info.Uses[id] = types.Universe.Lookup(name)
+		x.info.Types[id] = types.TypeAndValue{Type: types.Typ[types.Bool], Value: constant.MakeBool(v)}
+		return id
+	}
+	// break / continue of this loop
+	var fix func(n ast.Node, brk, cont bool)
+	fix = func(n ast.Node, brk, cont bool) {
+		ast.Inspect(n, func(m ast.Node) bool {
+			if m == nil || m == n {
+				return true
+			}
+			switch t := m.(type) {
+			case *ast.FuncLit:
+				return false
+			case *ast.ForStmt, *ast.RangeStmt:
+				fix(t, false, false)
+				return false
+			case *ast.SwitchStmt, *ast.TypeSwitchStmt, *ast.SelectStmt:
+				fix(t, false, cont)
+				return false
+			case *ast.BlockStmt:
+				for i, st := range t.List {
+					if br, ok := st.(*ast.BranchStmt); ok {
+						switch {
+						case br.Tok == token.BREAK && brk:
+							t.List[i] = &ast.ReturnStmt{Return: br.Pos(), Results: []ast.Expr{boolLit(false, br.Pos())}}
+						case br.Tok == token.CONTINUE && cont:
+							t.List[i] = &ast.ReturnStmt{Return: br.Pos(), Results: []ast.Expr{boolLit(true, br.Pos())}}
+						}
+					}
+				}
+			case *ast.CaseClause:
+				for i, st := range t.Body {
+					if br, ok := st.(*ast.BranchStmt); ok && br.Tok == token.CONTINUE && cont {
+						t.Body[i] = &ast.ReturnStmt{Return: br.Pos(), Results: []ast.Expr{boolLit(true, br.Pos())}}
+					}
+				}
+			}
+			return true
+		})
+	}
+	wrapper := &ast.BlockStmt{List: []ast.Stmt{rs.Body}}
+	fix(wrapper, true, true)
+	body := rs.Body
+	body.List = append(body.List, &ast.ReturnStmt{Return: body.Rbrace, Results: []ast.Expr{boolLit(true, body.Rbrace)}})
+	// the yield literal: its parameters are the loop's variables
+	params := &ast.FieldList{Opening: at, Closing: at}
+	for i := 0; i < yieldSig.Params().Len(); i++ {
+		var nm *ast.Ident
+		switch {
+		case i == 0 && rs.Key != nil:
+			nm, _ = rs.Key.(*ast.Ident)
+		case i == 1 && rs.Value != nil:
+			nm, _ = rs.Value.(*ast.Ident)
+		}
+		if nm == nil {
+			nm = &ast.Ident{NamePos: at, Name: "_"}
+		}
+		params.List = append(params.List, &ast.Field{Names: []*ast.Ident{nm}, Type: &ast.Ident{NamePos: at, Name: types.TypeString(yieldSig.Params().At(i).Type(), func(p *types.Package) string { return p.Name() })}})
+	}
+	results := &ast.FieldList{Opening: at, Closing: at, List: []*ast.Field{{Type: &ast.Ident{NamePos: at, Name: "bool"}}}}
+	lit := &ast.FuncLit{Type: &ast.FuncType{Func: at, Params: params, Results: results}, Body: body}
+	x.info.Types[lit] = types.TypeAndValue{Type: yieldSig}
+	lf := &Func{P: x.p, Lit: lit, Parent: x.top, Pkg: x.top.Pkg, Body: lit.Body, Type: lit.Type}
+	lf.name = x.top.name + "$yield"
+	x.p.byLit[lit] = lf
+	mk := func(name string, typ types.Type, val ast.Expr) (*ast.AssignStmt, func() *ast.Ident) {
+		x.seq++
+		v := types.NewVar(at, x.top.Pkg.Types, fmt.Sprintf("inl%d_%s", x.seq, name), typ)
+		def := &ast.Ident{NamePos: at, Name: v.Name()}
+		x.info.Defs[def] = v
+		use := func() *ast.Ident {
+			u := &ast.Ident{NamePos: at, Name: v.Name()}
+			x.info.Uses[u] = v
+			x.info.Types[u] = types.TypeAndValue{Type: typ}
+			return u
+		}
+		return &ast.AssignStmt{Lhs: []ast.Expr{def}, TokPos: at, Tok: token.DEFINE, Rhs: []ast.Expr{val}}, use
+	}
+	seqDef, seqUse := mk("seq", x.info.TypeOf(call), call)
+	yieldDef, yieldUse := mk("yield", yieldSig, lit)
+	run := &ast.CallExpr{Fun: seqUse(), Lparen: at, Args: []ast.Expr{yieldUse()}, Rparen: rs.End()}
+	x.info.Types[run] = types.TypeAndValue{Type: types.NewTuple()}
+	return []ast.Stmt{seqDef, yieldDef, &ast.ExprStmt{X: run}}
+}
+
+// stabilise prepares `defer h(a, b)` / `go h(a, b)` for litForm: operands of an
+// expandable callee that are evaluated when the statement runs but could change
+// before the call does (a field reached through a pointer, say) are first
+// copied into temporaries, which the call then uses.
+func (x *expander) stabilise(call *ast.CallExpr, depth int) []ast.Stmt {
+	if _, isLit := ast.Unparen(call.Fun).(*ast.FuncLit); isLit {
+		return nil
+	}
+	if _, ok := x.targetD(call, depth, true); !ok {
+		return nil
+	}
+	var pre []ast.Stmt
+	for i, a := range call.Args {
+		if x.substitutable(a) || containsCall(a) {
+			continue
+		}
+		typ := x.info.TypeOf(a)
+		if typ == nil {
+			continue
+		}
+		if b, isBasic := typ.(*types.Basic); isBasic && b.Info()&types.IsUntyped != 0 {
+			continue
+		}
+		x.seq++
+		tmp := types.NewVar(a.Pos(), x.top.Pkg.Types, fmt.Sprintf("inl%d_arg", x.seq), typ)
+		def := &ast.Ident{NamePos: a.Pos(), Name: tmp.Name()}
+		x.info.Defs[def] = tmp
+		use := &ast.Ident{NamePos: a.Pos(), Name: tmp.Name()}
+		x.info.Uses[use] = tmp
+		if tv, ok := x.info.Types[a]; ok {
+			x.info.Types[use] = tv
+		}
+		pre = append(pre, &ast.AssignStmt{Lhs: []ast.Expr{def}, TokPos: a.Pos(), Tok: token.DEFINE, Rhs: []ast.Expr{a}})
+		call.Args[i] = use
+	}
+	return pre
+}
+
 func (x *expander) litForm(callp **ast.CallExpr, depth int) {
 	call := *callp
 	if _, isLit := ast.Unparen(call.Fun).(*ast.FuncLit); isLit {
